@@ -26,8 +26,8 @@ From RX.Spec Require Cst CstText CstEnt CstFull CstFullS5.
 From RX.Proofs Require CstRangeFDefs CstRangeFS2 CstRangeGDefs CstRangeGS3 CstRangeG5Defs CstRangeG5.
 From RX.Spec Require CstFullS4 CstFullS6.
 From RX.Proofs Require CstRangeG6Defs CstRangeG6 ErrShiftSubFinal ErrShiftProlog.
-From RX.Spec Require CstFullS10.
-From RX.Proofs Require CstRangeG10.
+From RX.Spec Require CstFullS10 CstFullS11.
+From RX.Proofs Require CstRangeG10 CstRangeG11.
 Open Scope N_scope.
 
 (* ---- Proofs/RangeParse.v ---- *)
@@ -284,8 +284,52 @@ Print Assumptions C13_parse_render_attr_ranges_f5.
 
 End G9.
 
-(* ---- Proofs/CstRangeG10.v ---- *)
+(* ---- Proofs/CstRangeG11.v ---- *)
 Module G10.
+Import RX.Spec.CstFull. Import RX.Spec.CstFullS4. Import RX.Spec.CstFullS6. Import RX.Spec.CstFullS11. Import RX.Proofs.CstRangeFDefs. Import RX.Proofs.CstRangeFS2. Import RX.Proofs.CstRangeG6Defs. Import RX.Proofs.CstRangeG11.
+Theorem C13_parse_render_ranges_f11 :
+  forall (d : S6.doc) (opt : options) doc,
+  S11.wf_doc d = true ->
+  (S6.has_dtd d = true -> allow_dtd opt = true) ->                (* a DOCTYPE needs the option *)
+  N.of_nat (length (S6.sem d)) < nodes_limit opt ->               (* room for all nodes + the Root *)
+  N.of_nat (length (S6.sem d)) < u32_max ->                        (* of the MEANING: entities add nodes *)
+  N.of_nat (S6.nattrs d) < u32_max ->                              (* the attribute rows of the meaning *)
+  S6.distinct_decls_le d (N.to_nat 65535) ->                       (* at most 65535 distinct declared bindings *)
+  1 + N.of_nat (S6.ns_cost d) <= u32_max ->                        (* the namespace table fits *)
+  parse (S6.render d) opt = Ok doc ->
+  (* every node below the Root, in document order: the span of the construct it was read from -- in the
+     document, or, for what a reference stands for, inside the literal of the entity declaration in the
+     internal subset (an element, comment or PI of a markup value: where it is written in the value; a
+     Text node: its first fragment) *)
+  map nd_range (tl (d_nodes doc)) = fspans6 d /\
+  (* the Root: the whole input, the byte order mark and the XML declaration included *)
+  (exists root, nth_N (d_nodes doc) 0 = Some root /\ nd_range root = (0, N.of_nat (length (S6.render d)))) /\
+  (* all these offsets are on character boundaries *)
+  Forall (fun r => is_boundary (S6.render d) (fst r) = true /\ is_boundary (S6.render d) (snd r) = true) (fspans6 d).
+Proof. exact parse_render_ranges_f11. Qed.
+Print Assumptions C13_parse_render_ranges_f11.
+
+Theorem C13_parse_render_attr_ranges_f11 :
+  forall (d : S6.doc) (opt : options) doc,
+  S11.wf_doc d = true -> (S6.has_dtd d = true -> allow_dtd opt = true) ->
+  N.of_nat (length (S6.sem d)) < nodes_limit opt ->
+  N.of_nat (length (S6.sem d)) < u32_max ->
+  N.of_nat (S6.nattrs d) < u32_max ->
+  S6.distinct_decls_le d (N.to_nat 65535) ->
+  1 + N.of_nat (S6.ns_cost d) <= u32_max ->
+  fattrs_small6 d ->                                           (* below the saturation limits *)
+  parse (S6.render d) opt = Ok doc ->
+  (* the attributes of all elements in the order in which they are read (those of an element of a
+     markup value once per reference, with ranges inside the literal) *)
+  map (fun a => (ad_range a, attr_range_qname a, attr_range_value a)) (d_attrs doc) =
+  map (fun s => (fa_range s, fa_qname s, Ok (fa_value s))) (fattr_spans6 d).
+Proof. exact parse_render_attr_ranges_f11. Qed.
+Print Assumptions C13_parse_render_attr_ranges_f11.
+
+End G10.
+
+(* ---- Proofs/CstRangeG10.v ---- *)
+Module G11.
 Import RX.Spec.CstFull. Import RX.Spec.CstFullS4. Import RX.Spec.CstFullS6. Import RX.Spec.CstFullS10. Import RX.Proofs.CstRangeFDefs. Import RX.Proofs.CstRangeFS2. Import RX.Proofs.CstRangeG6Defs. Import RX.Proofs.CstRangeG10.
 Theorem C13_parse_render_ranges_f10 :
   forall (d : S6.doc) (opt : options) doc,
@@ -326,10 +370,10 @@ Theorem C13_parse_render_attr_ranges_f10 :
 Proof. exact parse_render_attr_ranges_f10. Qed.
 Print Assumptions C13_parse_render_attr_ranges_f10.
 
-End G10.
+End G11.
 
 (* ---- Proofs/CstRangeG6.v ---- *)
-Module G11.
+Module G12.
 Import RX.Spec.CstFull. Import RX.Spec.CstFullS4. Import RX.Spec.CstFullS6. Import RX.Proofs.CstRangeFDefs. Import RX.Proofs.CstRangeFS2. Import RX.Proofs.CstRangeG6Defs. Import RX.Proofs.CstRangeG6.
 Theorem C13_parse_render_ranges_f6 :
   forall (d : S6.doc) (opt : options) doc,
@@ -370,10 +414,10 @@ Theorem C13_parse_render_attr_ranges_f6 :
 Proof. exact parse_render_attr_ranges_f6. Qed.
 Print Assumptions C13_parse_render_attr_ranges_f6.
 
-End G11.
+End G12.
 
 (* ---- Proofs/ErrShiftProlog.v ---- *)
-Module G12.
+Module G13.
 Import RX.Proofs.ErrShiftSubFinal. Import RX.Proofs.ErrShiftProlog.
 Theorem C13_ranges_move_with_prolog_whitespace :
   forall pre ws post opt d,
@@ -384,10 +428,10 @@ Theorem C13_ranges_move_with_prolog_whitespace :
 Proof. exact ranges_move_with_prolog_whitespace. Qed.
 Print Assumptions C13_ranges_move_with_prolog_whitespace.
 
-End G12.
+End G13.
 
 (* ---- Proofs/RangeTokenizer.v ---- *)
-Module G13.
+Module G14.
 Local Notation token := Tokenizer.token.
 Theorem C13_tokenizer_token_ranges :
   forall text (C : Type) (ev : token -> C -> res C)
@@ -399,10 +443,10 @@ Theorem C13_tokenizer_token_ranges :
 Proof. exact tokenizer_token_ranges. Qed.
 Print Assumptions C13_tokenizer_token_ranges.
 
-End G13.
+End G14.
 
 (* ---- Proofs/LexerProofs.v ---- *)
-Module G14.
+Module G15.
 Local Notation token := Tokenizer.token.
 Theorem C13_parse_comment_post :
   forall (text : bytes), forall s acc s' acc', SInv text s ->
@@ -473,7 +517,7 @@ Theorem C13_parse_close_element_post :
 Proof. exact parse_close_element_post. Qed.
 Print Assumptions C13_parse_close_element_post.
 
-End G14.
+End G15.
 
 
 (* the slice shapes of C13, for every node of every parsed rendering of the Cst fragment *)
